@@ -574,7 +574,7 @@ def run(case):
                     out.ev("foreign-block", tagA, len(valA))
                     continue
                 try:
-                    bf.Bec2File.read_file("inserted.bec2", decs, True)
+                    bf.Bec2File.read_file("inserted.bec2", decs, nops % 3 != 1)
                     res = "accepted"
                 except SimCrash:
                     raise
@@ -633,7 +633,8 @@ def run(case):
                     same = False
                     out.probes["peer-returns-short-key-payload"] += 1
                 try:
-                    got = bf.Bec2File.read_file("spliced.bec2", decs, True)
+                    # "same key in every block" does not depend on MAC checking being on
+                    got = bf.Bec2File.read_file("spliced.bec2", decs, nops % 3 != 0)
                     res = "accepted"
                 except SimCrash:
                     raise
